@@ -416,7 +416,7 @@ condition `k > 14 AND k < 9` is folded to) is dropped by the executor builder: t
 every row. -/
 theorem scan_filter_ignored_unsound :
     keyRangeOfFilter (.const (.bool false)) = none
-      ∧ execPlan [wDupBoundary] (.scan [0] (.const (.bool false))) = .ok wDupBoundary.rows
+      ∧ execPlan ⟨[], true⟩ [wDupBoundary] (.scan [0] (.const (.bool false))) = .ok wDupBoundary.rows
       ∧ specPlan [wDupBoundary] (.scan [0] (.const (.bool false))) = [] := by
   decide
 
